@@ -52,10 +52,20 @@
      socket while the model's queue has room is rejected (so is, by the rule for X, a receiver that
      quietly returned after an overflow: the socket's later datagrams produce N).  At the end of the
      log every socket is closed and the receiver of every closed socket must have exited (one X per socket).
+   * Server address: the history names the server IP as the reference resolved it ([rip]: what
+     net.ResolveIPAddr returned for the host part, any family) and the table [dtab] of the distinct
+     (IP bytes, zone) destinations the fake sockets were handed; every W record carries the index of
+     its destination in that table.  The model's address list is addrs of the model's
+     ResolveUDPHopAddr on the same resolver result, and a W record is accepted only if the
+     destination the model's WriteTo hands over in the current state (astep: Addrs[addrIndex], the
+     whole address) has that port, an IP equal to the recorded one in the sense of net.IP.Equal
+     (4-byte and 16-byte forms of one IPv4 address are the same address) and the recorded zone.
+     CAddr: ResolveUDPHopAddr alone; error class, IP, Ports and the list returned by addrs() (length,
+     ports in order, the distinct (IP, zone) pairs in it) against the model's.
    * EAs k p n stands for n consecutive records A k p, A k (p+1), ...; ERs rid p n for n consecutive
      pairs RS rid, R rid (pkt p); RS (rid+1), R (rid+1) (pkt (p+1)); ...  (overflow histories hold
      thousands of them). *)
-From Hy Require Import lib.Harness gen.ParamsC19 model.C19_PortUnion model.C19_Hop model.C19_Recv.
+From Hy Require Import lib.Harness gen.ParamsC19 model.C19_PortUnion model.C19_Hop model.C19_Recv model.C19_Addr.
 From Coq Require Import ZArith Bool.
 Local Open Scope N_scope.
 
@@ -87,7 +97,7 @@ Inductive ev :=
 | EL (ok : bool) (id : nat) (r : nat)
 | EC (k : nat) (err : bool)     (* socket k . Close() was called; err: it reported an error *)
 | ES (k : nat) (kd : setkind) (v : Z)
-| EW (k : nat) (port : N) (d : N)
+| EW (k : nat) (port : N) (d : N) (di : nat)   (* di: index of the destination's (IP, zone) in the history's table *)
 | EA (k : nat) (p : N)
 | ET (k : nat)
 | ED (k : nat)
@@ -107,7 +117,11 @@ Inductive case :=
 | CPU (s : list byte) (exp : option (list range)) (np : N) (ph : N * N) (probe : list N) (cont : list bool)
 | CNorm (u : list range) (exp : list range) (np : N) (ph : N * N) (probe : list N) (cont : list bool)
 | CIval (mn mx : Z) (err : bool) (nmin nmax : Z) (draws : list Z)
-| CHop (expr : list byte) (ctor_ok : bool) (r0 : nat) (cerrs : list nat) (evs : list ev) (census : list (bool * N)).
+| CHop (expr : list byte) (rip : list byte) (dtab : list (list byte * list byte))
+       (ctor_ok : bool) (r0 : nat) (cerrs : list nat) (evs : list ev) (census : list (bool * N))
+| CAddr (portstr : list byte) (split_ok res_ok : bool) (rip rzone : list byte)   (* what the two library calls returned *)
+        (errk : N) (ip : list byte) (np : N) (ph : N * N)                         (* ResolveUDPHopAddr: error class, IP, Ports *)
+        (na : N) (ah : N * N) (dtab : list (list byte * list byte)).              (* addrs(): length, ports, distinct (IP, zone) *)
 
 Definition kd_eqb (a b : setkind) : bool :=
   match a, b with
@@ -129,7 +143,7 @@ Definition ev_matches (e : ev) (o : out) : bool :=
   | EL ok _ _, OListen ok' => Bool.eqb ok ok'
   | EC k e, OSockClose k' e' => Nat.eqb k k' && Bool.eqb e e'
   | ES k kd v, OSockSet k' kd' v' => Nat.eqb k k' && kd_eqb kd kd' && (v =? v')%Z
-  | EW k p d, OSockWrite k' p' d' => Nat.eqb k k' && (p =? p') && (d =? d')
+  | EW k p d _, OSockWrite k' p' d' => Nat.eqb k k' && (p =? p') && (d =? d')
   | _, _ => false
   end.
 
@@ -157,6 +171,25 @@ Definition ret_of_outs (outs : list out) : option ret :=
 (* same receivers, new state of the hop LTS *)
 Definition reb (x : xst) (s : st) : xst := mkX s (alive x).
 
+(* the destination of a recorded socket write against the one the model's WriteTo hands over in state s *)
+Definition write_dest_ok (az : list udpaddr) (ce : nat -> bool) (dtab : list (list byte * list byte)) (s : st) (e : ev) : bool :=
+  match e with
+  | EW k p d di =>
+      match nth_error dtab di with
+      | Some (oip, oz) =>
+          existsb (fun o => match o with
+                            | AOWrite _ dst _ => ip_equal (ua_ip dst) oip && bytes_eq (ua_zone dst) oz && (ua_port dst =? p)
+                            | AOut _ => false
+                            end)
+                  (snd (astep az ce s (AWrite d)))
+      | None => false
+      end
+  | _ => true
+  end.
+
+Section Replay.
+Variable wd : st -> ev -> bool.      (* [write_dest_ok] of the history's address list and destination table *)
+
 Definition locked (ps : list N) (ce : nat -> bool) (x : xst) (pend : option (action * nat)) (cr : option ret)
                   (e : ev) (a0 : action) : option rstate :=
   let '(a, n) := match pend with Some an => an | None => (a0, O) end in
@@ -164,7 +197,7 @@ Definition locked (ps : list N) (ce : nat -> bool) (x : xst) (pend : option (act
   let em := filter locked_out outs in
   match nth_error em n with
   | Some o =>
-      if ev_matches e o
+      if ev_matches e o && wd (base x) e
       then Some (if Nat.eqb (S n) (length em)
                  then if closed (base x') && negb (closed (base x))
                       then (x', None, true, ret_of_outs outs)      (* last record of Close opens the window *)
@@ -198,7 +231,7 @@ Definition rstep (ps : list N) (ce : nat -> bool) (rs : rstate) (e : ev) : optio
       end
   | EC k err => locked ps ce x pend cr e AClose
   | ES k kd v => locked ps ce x pend cr e (ASet kd v)
-  | EW k p d => match pend with Some _ => None | None => locked ps ce x pend cr e (AWrite d) end
+  | EW k p d _ => match pend with Some _ => None | None => locked ps ce x pend cr e (AWrite d) end
   | EA k p =>
       (* one turn of socket k's receiver: it must be running *)
       if recv_alive x k then Some (fst (xstep ps ce x (XRecv k (RData p))), pend, cw, cr) else None
@@ -304,6 +337,8 @@ Fixpoint replay (ps : list N) (ce : nat -> bool) (rs : rstate) (i : nat) (l : li
               end
   end.
 
+End Replay.
+
 Fixpoint census_eqb (a : list sock) (b : list (bool * N)) : bool :=
   match a, b with
   | [], [] => true
@@ -320,14 +355,21 @@ Fixpoint recv_census_ok (al : list bool) (l : list sock) : bool :=
 
 Definition ce_of (cerrs : list nat) (k : nat) : bool := existsb (Nat.eqb k) cerrs.
 
-Definition hop_check (expr : list byte) (ctor_ok : bool) (r0 : nat) (cerrs : list nat) (evs : list ev)
+(* the model's ResolveUDPHopAddr on what the reference's library calls returned *)
+Definition model_addr (portstr : list byte) (split_ok res_ok : bool) (rip rzone : list byte) : hopaddr + hoperr :=
+  resolve_hop_addr (if split_ok then Some ([], portstr) else None) (fun _ => if res_ok then Some (rip, rzone) else None).
+
+Definition hop_check (expr : list byte) (rip : list byte) (dtab : list (list byte * list byte))
+                     (ctor_ok : bool) (r0 : nat) (cerrs : list nat) (evs : list ev)
                      (census : list (bool * N)) : bool :=
-  match hop_ports expr with
-  | None => false
-  | Some ps =>
+  match model_addr expr true true rip [] with
+  | inr _ => false
+  | inl ha =>
+      let az := addrs ha in                              (* NewUDPHopPacketConn: addrs, err := addr.addrs() *)
+      let ps := map ua_port az in
       match xinit ps ctor_ok r0 with
       | Ok x0 =>
-          match replay ps (ce_of cerrs) (x0, None, false, None) 0 evs with
+          match replay (write_dest_ok az (ce_of cerrs) dtab) ps (ce_of cerrs) (x0, None, false, None) 0 evs with
           | inl (x, None, _, None) =>                  (* no section and no return value left open *)
               census_eqb (socks (base x)) census &&
               recv_census_ok (alive x) (socks (base x))   (* the receiver of every closed socket has exited (its X) *)
@@ -339,13 +381,41 @@ Definition hop_check (expr : list byte) (ctor_ok : bool) (r0 : nat) (cerrs : lis
   end.
 
 (* for diagnosis in replays: where the log is rejected *)
-Definition hop_reject_at (expr : list byte) (ctor_ok : bool) (r0 : nat) (cerrs : list nat) (evs : list ev) : option nat :=
-  match hop_ports expr with
-  | None => Some O
-  | Some ps => match xinit ps ctor_ok r0 with
-               | Ok x0 => match replay ps (ce_of cerrs) (x0, None, false, None) 0 evs with inr i => Some i | inl _ => None end
-               | _ => None
-               end
+Definition hop_reject_at (expr : list byte) (rip : list byte) (dtab : list (list byte * list byte))
+                         (ctor_ok : bool) (r0 : nat) (cerrs : list nat) (evs : list ev) : option nat :=
+  match model_addr expr true true rip [] with
+  | inr _ => Some O
+  | inl ha => let az := addrs ha in
+              let ps := map ua_port az in
+              match xinit ps ctor_ok r0 with
+              | Ok x0 => match replay (write_dest_ok az (ce_of cerrs) dtab) ps (ce_of cerrs) (x0, None, false, None) 0 evs with
+                         | inr i => Some i | inl _ => None end
+              | _ => None
+              end
+  end.
+
+Definition herr_code (e : hoperr) : N := match e with HESplit => 1 | HEResolve => 2 | HEPort => 3 end.
+
+Definition hash_eqb (a b : N * N) : bool := (fst a =? fst b) && (snd a =? snd b).
+
+(* ResolveUDPHopAddr and addrs() alone.  Every address of the model's list carries the same (IP, zone),
+   so the observed table of distinct pairs must be that one pair (up to net.IP.Equal) whenever the list
+   is not empty. *)
+Definition addr_check (portstr : list byte) (split_ok res_ok : bool) (rip rzone : list byte) (errk : N) (ip : list byte)
+                      (np : N) (ph : N * N) (na : N) (ah : N * N) (dtab : list (list byte * list byte)) : bool :=
+  match model_addr portstr split_ok res_ok rip rzone with
+  | inr e => errk =? herr_code e
+  | inl a =>
+      let az := addrs a in
+      (errk =? 0) && ip_equal (ha_ip a) ip &&
+      (N.of_nat (length (ha_ports a)) =? np) && hash_eqb (ports_hash (ha_ports a)) ph &&
+      (N.of_nat (length az) =? na) && hash_eqb (ports_hash (map ua_port az)) ah &&
+      match az with
+      | [] => match dtab with [] => true | _ => false end
+      | dst :: _ =>
+          negb (match dtab with [] => true | _ => false end) &&
+          forallb (fun e => ip_equal (ua_ip dst) (fst e) && bytes_eq (ua_zone dst) (snd e)) dtab
+      end
   end.
 
 Definition opt_ranges_eqb (a b : option (list range)) : bool :=
@@ -375,7 +445,9 @@ Definition check (c : case) : bool :=
       | None => err
       | Some (a, b) => negb err && (a =? nmin)%Z && (b =? nmax)%Z && forallb (draw_ok a b) draws
       end
-  | CHop expr ctor_ok r0 cerrs evs census => hop_check expr ctor_ok r0 cerrs evs census
+  | CHop expr rip dtab ctor_ok r0 cerrs evs census => hop_check expr rip dtab ctor_ok r0 cerrs evs census
+  | CAddr portstr split_ok res_ok rip rzone errk ip np ph na ah dtab =>
+      addr_check portstr split_ok res_ok rip rzone errk ip np ph na ah dtab
   end.
 
 Definition mismatches (l : list case) : list nat := mism_from check 0 l.
@@ -384,31 +456,34 @@ Definition mismatches (l : list case) : list nat := mism_from check 0 l.
    A record made by the caller after its call returned may land inside another goroutine's section
    (here a SetDeadline racing a WriteTo / Close / hop on a closed conn): accepted.  The same
    records while the conn is still open: rejected. *)
+Definition ex_srv : list byte := [x7f; x00; x00; x01].
+Definition hop_check0 (expr : list byte) := hop_check expr ex_srv [(ex_srv, [])].
+
 Example accept_late_returns_inside_a_section :
-  hop_check [x34;x34;x33] true 0%nat []
+  hop_check0 [x34;x34;x33] true 0%nat []
     [EL true 1%nat 0%nat; EC 0%nat false; EX 0%nat; EC 1%nat false;
      ES 0%nat SDL 0%Z; EWC; EX 1%nat; ECL2; EHN; ECR false; ES 1%nat SDL 0%Z]
     [(false, 1); (false, 1)] = true.
 Proof. vm_compute. reflexivity. Qed.
 
 Example reject_closed_returns_on_an_open_conn :
-  map (fun e => hop_check [x34;x34;x33] true 0%nat [] [EL true 1%nat 0%nat; ES 0%nat SDL 0%Z; e; ES 1%nat SDL 0%Z]
+  map (fun e => hop_check0 [x34;x34;x33] true 0%nat [] [EL true 1%nat 0%nat; ES 0%nat SDL 0%Z; e; ES 1%nat SDL 0%Z]
                           [(true, 0); (true, 0)])
       [EWC; ECL2; EHN; EA 0%nat 7] = [false; false; false; true].
 Proof. vm_compute. reflexivity. Qed.
 
 Example reject_section_with_a_missing_or_foreign_record :
-  map (fun l => hop_check [x34;x34;x33] true 0%nat [] (EL true 1%nat 0%nat :: EC 0%nat false :: EC 1%nat false :: l ++ [ECR false; EX 1%nat; EX 0%nat])
+  map (fun l => hop_check0 [x34;x34;x33] true 0%nat [] (EL true 1%nat 0%nat :: EC 0%nat false :: EC 1%nat false :: l ++ [ECR false; EX 1%nat; EX 0%nat])
                           [(false, 1); (false, 1)])
       [[ES 0%nat SDL 0%Z; EWC]; [ES 0%nat SDL 0%Z; EWC; ES 1%nat SRDL 0%Z];
-       [ES 0%nat SDL 0%Z; EWC; EW 1%nat 443 0]; [ES 0%nat SDL 0%Z; EWC; ES 1%nat SDL 0%Z]]
+       [ES 0%nat SDL 0%Z; EWC; EW 1%nat 443 0 0%nat]; [ES 0%nat SDL 0%Z; EWC; ES 1%nat SDL 0%Z]]
   = [false; false; false; true].
 Proof. vm_compute. reflexivity. Qed.
 
 (* closing window: a ReadFrom started right after Close's last socket call may still get a queued
    packet; once anything shows that Close is over, it must return closed *)
 Example closing_window :
-  map (fun l => hop_check [x34;x34;x33] true 0%nat [] (EA 0%nat 7 :: EC 0%nat false :: EX 0%nat :: l ++ [ECR false]) [(false, 1)])
+  map (fun l => hop_check0 [x34;x34;x33] true 0%nat [] (EA 0%nat 7 :: EC 0%nat false :: EX 0%nat :: l ++ [ECR false]) [(false, 1)])
       [[ERS 0%nat; ER 0%nat (RPkt 7)];
        [ERS 0%nat; ER 0%nat RClosed];
        [EWC; ERS 0%nat; ER 0%nat (RPkt 7)];
@@ -423,7 +498,7 @@ Proof. vm_compute. reflexivity. Qed.
    failing socket (no second C record) is rejected; a record that disagrees with the script is
    rejected *)
 Example close_faults :
-  map (fun cl => hop_check [x34;x34;x33] true 0%nat (fst cl) (EL true 1%nat 0%nat :: snd cl ++ [EX 0%nat; EX 1%nat]) [(false, 1); (false, 1)])
+  map (fun cl => hop_check0 [x34;x34;x33] true 0%nat (fst cl) (EL true 1%nat 0%nat :: snd cl ++ [EX 0%nat; EX 1%nat]) [(false, 1); (false, 1)])
       [([1%nat], [EC 0%nat false; EC 1%nat true; ECR true]);
        ([1%nat], [EC 0%nat false; EC 1%nat true; ECR false]);
        ([0%nat], [EC 0%nat true; EC 1%nat false; ECR false]);
@@ -452,7 +527,7 @@ Definition fill (n : nat) : ev := EAs 0%nat 0 n.
 Definition reads (n : nat) : ev := ERs 0%nat 0 n.
 Definition fin0 : list ev := [EC 0%nat false; EX 0%nat; ECR false].
 Example receivers :
-  map (fun l => hop_check [x34;x34;x33] true 0%nat [] l [(false, 1)])
+  map (fun l => hop_check0 [x34;x34;x33] true 0%nat [] l [(false, 1)])
       [[fill (packetQueueSize + 3); reads packetQueueSize; EA 0%nat 5000; ERS 5000%nat; ER 5000%nat (RPkt 5000)] ++ fin0;
        [fill (packetQueueSize + 3); reads packetQueueSize; EN 0%nat] ++ fin0;
        [fill (packetQueueSize + 3); EN 0%nat; reads packetQueueSize] ++ fin0;
@@ -460,8 +535,47 @@ Example receivers :
        [EC 0%nat false; EX 0%nat; EA 0%nat 1; ECR false];
        [fill 2; EC 0%nat false; ECR false]]
   = [true; false; true; false; false; false] /\
-  map (fun l => hop_check [x34;x34;x33] true 0%nat [] ([EL true 1%nat 0%nat] ++ l ++ [EC 0%nat false; EC 1%nat false; EX 0%nat; EX 1%nat; ECR false])
+  map (fun l => hop_check0 [x34;x34;x33] true 0%nat [] ([EL true 1%nat 0%nat] ++ l ++ [EC 0%nat false; EC 1%nat false; EX 0%nat; EX 1%nat; ECR false])
                           [(false, 1); (false, 1)])
       [[EN 0%nat]; [EN 1%nat]; [EA 0%nat 0; EA 1%nat 1]; [EN 2%nat]]
   = [false; false; true; true].
 Proof. vm_compute. split; reflexivity. Qed.
+
+(* server address (ports "443,444"; the server is 2001:db8::1; one write before and one after a hop whose draw moves
+   the index to 444).  The destination table holds the server's IP (entry 0), nil (entry 1), the loopback
+   address (2), the server's IP with a zone (3).  1 both writes to entry 0: accepted;  2 a write to a nil IP:
+   rejected;  3 to another host: rejected;  4 to a zone the address does not have: rejected;  5 an index outside
+   the table: rejected;  6 the right IP on the other port of the set: rejected (the model's index says 444).
+   And IPv4: a server known in 16-byte form written to in 4-byte form is the same destination. *)
+Definition ex_srv6 : list byte := [x20; x01; x0d; xb8; x00; x00; x00; x00; x00; x00; x00; x00; x00; x00; x00; x01].
+Definition ex_dtab6 : list (list byte * list byte) :=
+  [(ex_srv6, []); ([], []); ([x00; x00; x00; x00; x00; x00; x00; x00; x00; x00; x00; x00; x00; x00; x00; x01], []); (ex_srv6, [x6c; x6f])].
+Example server_address :
+  map (fun w => hop_check [x34;x34;x33;x2c;x34;x34;x34] ex_srv6 ex_dtab6 true 0%nat []
+                  ([EW 0%nat 443 0 0%nat; EL true 1%nat 1%nat] ++ [w] ++ [EC 0%nat false; EC 1%nat false; EX 0%nat; EX 1%nat; ECR false])
+                  [(false, 1); (false, 1)])
+      [EW 1%nat 444 1 0%nat; EW 1%nat 444 1 1%nat; EW 1%nat 444 1 2%nat; EW 1%nat 444 1 3%nat; EW 1%nat 444 1 4%nat; EW 1%nat 443 1 0%nat]
+  = [true; false; false; false; false; false] /\
+  map (fun d => hop_check [x34;x34;x33] (v4_in_v6_prefix ++ [x0a; x01; x02; x03]) [d] true 0%nat []
+                  [EW 0%nat 443 0 0%nat; EC 0%nat false; EX 0%nat; ECR false] [(false, 1)])
+      [([x0a; x01; x02; x03], []); (v4_in_v6_prefix ++ [x0a; x01; x02; x03], []); ([x0a; x01; x02; x04], []); ([], [])]
+  = [true; true; false; false].
+Proof. vm_compute. split; reflexivity. Qed.
+
+(* ResolveUDPHopAddr alone ("5,7-8" = three ports, hash (23, 43)): the IPv6 server's list; a list whose entries
+   carry a nil IP; a 4-byte rendering of an IPv4 server resolved in 16 bytes; error classes *)
+Example resolved_address :
+  map (fun c => check c)
+      [CAddr [x35;x2c;x37;x2d;x38] true true ex_srv6 [] 0 ex_srv6 3 (23, 43) 3 (23, 43) [(ex_srv6, [])];
+       CAddr [x35;x2c;x37;x2d;x38] true true ex_srv6 [] 0 ex_srv6 3 (23, 43) 3 (23, 43) [([], [])];
+       CAddr [x35;x2c;x37;x2d;x38] true true ex_srv6 [x6c; x6f] 0 ex_srv6 3 (23, 43) 3 (23, 43) [(ex_srv6, [x6c; x6f])];
+       CAddr [x35;x2c;x37;x2d;x38] true true (v4_in_v6_prefix ++ [x0a; x01; x02; x03]) [] 0 [x0a; x01; x02; x03] 3 (23, 43) 3 (23, 43)
+             [([x0a; x01; x02; x03], [])];
+       CAddr [x35;x2c;x37;x2d;x38] true true ex_srv6 [] 0 ex_srv6 3 (23, 43) 2 (14, 20) [(ex_srv6, [])];
+       CAddr [x35;x2c;x37;x2d] true true ex_srv6 [] 3 [] 0 (0, 0) 0 (0, 0) [];
+       CAddr [x35;x2c;x37;x2d] true true ex_srv6 [] 0 ex_srv6 1 (6, 6) 1 (6, 6) [(ex_srv6, [])];
+       CAddr [x35] true false [] [] 2 [] 0 (0, 0) 0 (0, 0) [];
+       CAddr [x35] false false [] [] 1 [] 0 (0, 0) 0 (0, 0) [];
+       CAddr [x35] true false [] [] 0 [] 1 (6, 6) 1 (6, 6) [([], [])]]
+  = [true; false; false; true; false; true; false; true; true; false].
+Proof. vm_compute. reflexivity. Qed.
